@@ -123,6 +123,22 @@ CHECKS["C09"] = ("model_checking",
                  "Trusted: my transcription of the RFC layouts, TLC, Json, the reflective interpreter / projector. DHCP and LLDP not yet covered.",
                  "4/C09")
 
+CHECKS["C04"] = ("model_checking",
+                 "TLC generates switch-originated message trees (OFSwitch.tla) and their frames with the specification's own encoder; frames are "
+                 "fed to the real Parse; TLC judges Go type and Enc(projection of the parsed message) = frame",
+                 "The independent encoder is Enc of OFWire.tla / PktWire.tla; OFSwGen.tla enumerates every switch-originated kind x list lengths "
+                 "0/1/2/5 x packet kinds x every decodable match-field kind; the parsed message is projected by name and read back by the same "
+                 "specification encoder: equality with the frame means every wire-carried field equals what was written.",
+                 _OF_NOTE + " Known finding: OpenFlow 1.0 record layouts of table/port/queue stats (by kind).", "4/C04")
+CHECKS["C12"] = ("model_checking",
+                 "parse / scribble / observe histories on TLC-generated frames executed on the real Parse; TLC judges that every snapshot after an "
+                 "overwrite of the input buffer equals the first snapshot",
+                 "For every frame of the OFSwGen.tla corpus that Parse accepts: snapshot (projection, re-encoding, size), overwrite the input "
+                 "buffer with four patterns, snapshot again; TLC requires equality. Covers packet-in payload chains (Ethernet / IPv4 / IPv6 with "
+                 "extension headers and options / ARP / ICMP / UDP), match fields, instructions, all action kinds, vendor and bundle nesting.",
+                 "Trusted: TLC, Json, projector. Frames are specification-conformant ones (mutated-but-accepted frames are exercised by C07's corpus "
+                 "only for totality). The stream check C10 exercises the same property with recycled pool buffers.", "4/C12")
+
 NOT_YET = {
 }
 
